@@ -168,11 +168,44 @@ MUTANTS = {
                          "refused", "the critical section of delete is no longer under image_lock (truthiness of an opaque value)"),
     "transfer-move": ("transfer", P, [("            shutil.copy(pool_path, cache_path)\n", "            shutil.move(pool_path, cache_path)\n")],
                       "refused", "a file-system call that is not an atom"),
+    # ---- TestNode.default_clean_decision (C05, cleanDecision_matches_source)
+    "clean-all-for-any": ("clean", N, [("            if is_reversible:\n                break\n        else:\n            is_reversible = False", "            if not is_reversible:\n                break\n        else:\n            is_reversible = False")],
+                          "refused", "the flag loop no longer has the shape of `any`"),
+    "clean-and-for-or": ("clean", N, [("            is_reversible |= (", "            is_reversible &= (")],
+                         "refused", "both parameters must ask for removal (`&=` is not the flag pattern)"),
+    "clean-mode-letter": ("clean", N, [('object_params.get("unset_mode_vms", object_params["unset_mode"])[0]\n                == "f"', 'object_params.get("unset_mode_vms", object_params["unset_mode"])[0]\n                == "r"')],
+                          "proof-breaks", "vms count as reversible when their mode starts with r"),
+    "clean-not-dropped": ("clean", N, [("        if not is_reversible:\n            return True", "        if is_reversible:\n            return True")],
+                          "proof-breaks", "reversible nodes cleaned at once, the others through the loop"),
+    "clean-flat-cleans": ("clean", N, [('            logging.debug(f"Should not clean a flat node {self}")\n            return False', '            logging.debug(f"Should not clean a flat node {self}")\n            return True')],
+                          "proof-breaks", "flat nodes cleaned"),
+    "clean-foreign-worker-tolerated": ("clean", N, [('            raise RuntimeError(f"Worker {worker.id} should not try to clean {self}")', '            return False')],
+                                       "refused", "the declared RuntimeError is no longer raised"),
+    "clean-door-changed": ("clean", N, [("            return self.is_finished(worker, -1)\n\n    @classmethod\n    def prefix_priority", "            return self.is_finished(worker, 1)\n\n    @classmethod\n    def prefix_priority")],
+                           "refused", "the pinned loop over the involved workers changed"),
+    "clean-default-key": ("clean", N, [('object_params.get("unset_mode_images", object_params["unset_mode"])[0]', 'object_params.get("unset_mode_images", object_params["unset_mode_vms"])[0]')],
+                          "refused", "another default key: not the atom"),
+    # ---- TestNode.default_run_decision (C10, defaultRunDecision_matches_source)
+    "run-and-for-or": ("rules", N, [("should_run = len(self.shared_results) == 0 or self.should_rerun(worker)", "should_run = len(self.shared_results) == 0 and self.should_rerun(worker)")],
+                       "proof-breaks", "a stateless node without results is not run"),
+    "run-eager-rerun": ("rules", N, [("            should_run = len(self.shared_results) == 0 or self.should_rerun(worker)\n", "            again = self.should_rerun(worker)\n            should_run = len(self.shared_results) == 0 or again\n")],
+                        "proof-breaks", "should_rerun evaluated (and possibly raising) although there are no results"),
+    "run-scan-when-finished": ("rules", N, [("            should_scan = not self.is_finished(worker, 1)", "            should_scan = self.is_finished(worker, 1)")],
+                               "proof-breaks", "the pool is scanned when the node IS finished"),
+    "run-disable-always": ("rules", N, [("            if len(self.shared_filtered_results) == 0 and not should_run_from_scan:", "            if len(self.shared_filtered_results) == 0 or not should_run_from_scan:")],
+                           "proof-breaks", "retries switched off also when results exist"),
+    "run-disable-dropped": ("rules", N, [("                self.should_rerun = lambda _: False\n", "                pass\n")],
+                            "refused", "the pinned statement no longer occurs"),
+    "run-disable-true": ("rules", N, [("                self.should_rerun = lambda _: False\n", "                self.should_rerun = lambda _: True\n")],
+                         "refused", "another replacement of should_rerun (attribute store outside the pin)"),
+    "run-rerun-first": ("rules", N, [("            should_run = should_run or self.should_rerun(worker)", "            should_run = self.should_rerun(worker) or should_run")],
+                        "proof-breaks", "should_rerun evaluated before the scan result is looked at (another error behaviour)"),
 }
 
 TARGET = {"tunnel": ("GenTunnel.lean", "I2N.Props.C19"), "scope": ("GenScope.lean", "I2N.Props.C04"),
           "travlib": ("GenScope.lean", "I2N.Props.C04"), "pool": ("GenPool.lean", "I2N.Props.C13"),
-          "rules": ("GenRules.lean", "I2N.Props.C10"), "transfer": ("GenTransfer.lean", "I2N.Props.C14")}
+          "rules": ("GenRules.lean", "I2N.Props.C10"), "transfer": ("GenTransfer.lean", "I2N.Props.C14"),
+          "clean": ("GenClean.lean", "I2N.Props.C05")}
 
 
 def source_of(target, path):
@@ -186,6 +219,8 @@ def source_of(target, path):
         return pygen.rules_source(path)
     if target == "transfer":
         return pygen.transfer_source(path)
+    if target == "clean":
+        return pygen.clean_source(path)
     return pygen.pool_source(path)
 
 
@@ -221,7 +256,9 @@ def restore():
     pygen.extract_pool()
     pygen.extract_rules()
     pygen.extract_transfer()
-    ok, log = vlib.lake_build(["I2N.Props.C19", "I2N.Props.C04", "I2N.Props.C13", "I2N.Props.C10", "I2N.Props.C14"])
+    pygen.extract_clean()
+    ok, log = vlib.lake_build(["I2N.Props.C19", "I2N.Props.C04", "I2N.Props.C13", "I2N.Props.C10", "I2N.Props.C14",
+                               "I2N.Props.C05"])
     if not ok:
         raise RuntimeError("the restored generated files do not build: " + log[-500:])
 
